@@ -1,5 +1,5 @@
 From Coq Require Import String Ascii List Bool ZArith.
-Require Import PyStr PyInt Sexp Xml M_C09 M_C08 R_C08 M_C10.
+Require Import PyStr PyInt Sexp Xml M_C09 M_C08 R_C08 M_C10 M_C10r.
 Import ListNotations.
 Definition d_jval (x : sexp) : option jval :=
   match x with
@@ -9,7 +9,31 @@ Definition d_jval (x : sexp) : option jval :=
       else omap JV (d_uav x)
   | _ => omap JV (d_uav x)
   end.
+Fixpoint e_jv (j : jv) : sexp :=
+  match j with
+  | JNull => Lst [e_sym "null"]
+  | JBool b => Lst [e_sym "bool"; e_bool b]
+  | JNum s => Lst [e_sym "num"; e_str s]
+  | JStr s => Lst [e_sym "str"; e_str s]
+  | JArr l => Lst [e_sym "arr"; Lst (map e_jv l)]
+  | JObj l => Lst [e_sym "obj"; Lst (map (fun kv => Lst [e_str (fst kv); e_jv (snd kv)]) l)]
+  end.
+(* is the value inside the theorems' domain, and what do they say the reader returns *)
+Definition c10_domain (v : jval) : sexp :=
+  match v with
+  | JV (VExtObj tid body) => Lst [e_bool (nid_dom tid && nid_ok tid && match shape_ext tid body with Some _ => true | None => false end); e_opt e_jv (shape_ext tid body)]
+  | JV v => Lst [e_bool (dom10 v && texts_ok v && match shape v with Some _ => true | None => false end); e_opt e_jv (shape v)]
+  | JVariant (Some v) tnum =>
+      Lst [e_bool (negb (tnum =? 0)%Z && dom10 v && texts_ok v);
+           (* a null body: C10_variant gives the text null *)
+           e_opt e_jv (Some (match shape v with Some j => JObj [(lit "Type", JNum (decZ tnum)); (lit "Body", j)] | None => JNull end))]
+  | _ => Lst [e_bool false; Lst []]
+  end.
 Definition run_c10 (cmd : str) (args : list sexp) : option sexp :=
   if str_eqb cmd (lit "c10_json") then
     match args with [e; v] => obind (d_ext e) (fun e => omap (fun v => e_res (e_opt e_str) (json_encode_j e v)) (d_jval v)) | _ => None end
+  else if str_eqb cmd (lit "c10_parse") then
+    match args with [t] => omap (fun t => e_opt e_jv (jparse t)) (d_str t) | _ => None end
+  else if str_eqb cmd (lit "c10_domain") then
+    match args with [v] => omap c10_domain (d_jval v) | _ => None end
   else None.
